@@ -7,6 +7,7 @@ mod c10;
 mod c14;
 mod c22;
 mod c25;
+mod c26;
 mod c27;
 mod c28;
 mod c29;
@@ -26,6 +27,7 @@ fn main() {
         "c14" => c14::main(&args),
         "c22" => c22::main(&args),
         "c25" => c25::main(&args),
+        "c26" => c26::main(&args),
         "c27" => c27::main(&args),
         "c28" => c28::main(&args),
         "c29" => c29::main(&args),
